@@ -4,6 +4,7 @@ import (
 	"errors"
 	"fmt"
 	"math/big"
+	"strings"
 	"testing"
 
 	"github.com/youchainhq/go-youchain/common"
@@ -56,9 +57,10 @@ func processCfg() int {
 func genCase(t *rapid.T) Case {
 	c := Case{Cfg: processCfg()}
 	cfg := &sc.Configs[c.Cfg]
-	// Evidence against a validator without stake or without tokens is kept out always: those
-	// two shapes are the C05/C06 findings zero-stake-division and zero-penalty-divergence.
-	c.Excl = sc.Excl{AutoSettle: kit.IsKnown(classStale), NoRefund: kit.IsKnown(classRefund), NoEmpty: kit.IsKnown(classDust), ZeroStake: true, ZeroToken: true}
+	// Evidence against a validator with stake 0 is kept out while the tree still crashes on it
+	// (C05 zero-stake-division, probed once per process). A penalty amount of 0 (C05/C06
+	// zero-penalty-divergence) is a builder/importer matter and harmless for this builder-only check.
+	c.Excl = sc.Excl{AutoSettle: kit.IsKnown(classStale), NoRefund: kit.IsKnown(classRefund), NoEmpty: kit.IsKnown(classDust), ZeroStake: sc.ZeroStakePenaltyPanics(c.Cfg)}
 	c.Gen = sc.GenGenesis(t, cfg)
 	maxBlocks := 64
 	if kit.Thorough() {
@@ -253,6 +255,11 @@ func runCase(c Case) kit.Result {
 			}
 			return kit.Fail("build", "block spec %d: %v", bi, err)
 		}
+		for _, sk := range step.Skipped {
+			if strings.HasPrefix(sk, "excluded:") || strings.HasPrefix(sk, "skipped:") {
+				w.Excluded[sk]++
+			}
+		}
 		if step.Halted {
 			rs.halted = true
 			break
@@ -434,6 +441,6 @@ var _ = kit.Register(kit.Prop[Case]{
 		"double-sign evidences, skewed proposer choice (inactivity). Non-trivial: the chain crosses >= 2 period ends and contains >= 1 " +
 		"successful staking transaction.",
 	Gen: genCase, Run: runCase,
-	Quick: 90, Thorough: 1500, Chunk: 15, MinNonTrivialPct: 50,
+	Quick: 150, Thorough: 1200, Chunk: 15, MinNonTrivialPct: 50,
 	QuickBudgetS: 60, ThoroughBudgetS: 540,
 })
